@@ -94,6 +94,13 @@ check("C18", "exploration", "bounded-exhaustive call-sequence enumeration with b
       "Six kinds of committed file state (plain, chunked/updated/deleted, after WAL growth, after an automatic checkpoint, instant index, empty) x 0/1/2 acknowledged-but-uncommitted puts whose writer disappears without committing; on each, every sequence of <= 2 (quick) / <= 3 (thorough) calls from {open_read_only, all frame reads, timeline, search, search_vec, stats, verify, verify(deep)} on a read-only handle. sha256 of the file and the directory listing must be unchanged after the open, after every call and after drop; the read-only view must equal the reference's last committed state.",
       "Only states this API can produce are used (legacy-lock header bytes are outside the quantifier).", "DESIGN.md §3 C18", "hist")
 
+check("C25", "exploration", "bounded-exhaustive history exploration on the real implementation",
+      "Every sequence of <= 2 (quick) / <= 3 (thorough) steps over 16 ops: unsigned tickets with sequence 0 / same / next / +3 / i64::MAX relative to the last accepted one; signed tickets that are authentic, or have a flipped signature bit, a changed issuer / sequence / capacity / expiry, another memory id (correctly signed), a 63-byte signature, or a replayed sequence; commit; close+open; on a bound and an unbound memory. Accepted iff the sequence exceeds every accepted one (across reopen) and, when signed, the signature is authentic for the bound memory; a rejected ticket leaves current_ticket, capacity and the file bytes unchanged. Plus verify_ticket_signature on all 512 single-bit flips of a valid signature.",
+      "The production public key's private half is unavailable: the verif_hooks feature lets the harness install its own verifying key, so the accept path of apply_signed_ticket is the real code with another key. unbind_memory (an explicit reset) is outside the alphabet.", "DESIGN.md §3 C25", "hist")
+check("C27", "exploration", "bounded-exhaustive input and history enumeration on the real implementation",
+      "(a) every ordered set of <= 3 (quick) / <= 4 (thorough) cards over 72 card variants (entity u/U, four version relations, event dates, document dates) on a real MemoriesTrack, queried for both entity spellings at 8 times: the card returned by get_at_time is never later than t, never a retraction, belongs to the entity, and equals get_current for t at or beyond the latest card. (b) every history of <= 3 (quick) / <= 4 (thorough) steps over {three kinds of card, plain put, mesh node, mesh edge, commit, close+open, read-only view} on a real Memvid: the card list (all fields) and the mesh (as sets) are unchanged by commit, close and reopen.",
+      "created_at is fixed so that the fallback effective time is deterministic.", "DESIGN.md §3 C27", "hist")
+
 NOT_APPLICABLE = {}
 
 def main():
